@@ -256,6 +256,38 @@ def body(run):
         if problems:
             run.add_violation('CLI run differs from the API call with the same settings', desc, observed=problems,
                               signature=dict(kind='cli-vs-api', parts=sorted(kk.split(': ')[1] for kk in problems)))
+    # ---- ... also when the files differ in resolution (one finer, one coarser than the reference) and in band layout
+    from harness import impl_multi as im
+    files = im.make_files(run.work, rng)
+    for oi, order in enumerate([('fine3', 'coarse4', 'fine4'), ('coarse4', 'fine3')][:run.scale(2, 2)]):
+        od = run.work / f'mixfuse{oi}'
+        od.mkdir()
+        code, outp, seen = im.cli_fuse([files[k_] for k_ in order], files['ref'], od, extra=['-pi', '-m', 'gain-offset'])
+        run.count_case(('fuse-mixed', oi), True, None)
+        problems = {}
+        if code != 0:
+            problems['exit code'] = dict(code=code, output=outp[-300:])
+        for fi, k_ in enumerate(order):
+            sfn = files[k_]
+            ad = run.work / f'mixfuse_api{oi}_{fi}'
+            ad.mkdir()
+            with RasterFuse(sfn, files['ref']) as rf:
+                name = sfn.stem + utils.create_out_postfix(rf.proc_crs, model='gain-offset', kernel_shape=(3, 3), driver='GTiff')
+                api_corr = ad / name
+                rf.process(api_corr, Model('gain-offset'), (3, 3), param_filename=utils.create_param_filename(api_corr), build_ovw=False)
+            cli_corr = od / name
+            if not cli_corr.exists():
+                problems[f'{k_}: CLI output missing'] = sorted(p_.name for p_ in od.iterdir())[:8]
+                continue
+            a, b = fz.read_all(cli_corr), fz.read_all(api_corr)
+            if a['array'].shape != b['array'].shape or not fz.same_arrays(a['array'], b['array']):
+                problems[f'{k_}: corrected pixels differ'] = fz.first_diff(a['array'], b['array'])
+            pa, pb = fz.read_all(utils.create_param_filename(cli_corr)), fz.read_all(utils.create_param_filename(api_corr))
+            if pa['array'].shape != pb['array'].shape or not fz.same_arrays(pa['array'], pb['array']):
+                problems[f'{k_}: parameter image differs'] = fz.first_diff(pa['array'], pb['array'])
+        if problems:
+            run.add_violation('CLI run differs from the API call with the same settings', dict(files=list(order), args=['fuse', '-pi', '-m', 'gain-offset', '-k', '3', '3']),
+                              observed=problems, signature=dict(kind='cli-vs-api', parts=sorted({kk.split(': ')[-1] for kk in problems})))
     # ---- flags that do not show in small outputs (overviews are only built for images of 512 px and more): what the command hands to process()
     seen = []
     orig_process = RasterFuse.process
